@@ -86,9 +86,24 @@ func (e *retryEngine) Gen(rng *rand.Rand, tier string, n int, emit func(string))
 	emit("t0a0c0 P - cancel start dial+:10 ack+:0")                                       // already cancelled when Connect is called
 	emit("t0a0c0 P - start dial+:10 ack+:0 cancel pub:1:1 close dial+:20 ack+:1 pub:2:2") // after the first success: no effect
 	emit("t0a0c0 P - start dial+:10 ack+:0 pub:1:1 bad pub:2:1 dial+:20 ack+:1 bad dial+:30 ack+:1")
+	// a broker that grants less than requested: the client keeps asking for what the application asked for
+	emit("t0a0c0g1 P - start dial+:10 ack+:0 sub:61.2 sub:62.2,632f23.1 close dial+:20 ack+:0 close dial+:30 ack+:0 unsub:62 close dial+:40 ack+:0")
+	emit("t0a1c0g1 P ok,la start dial+:10 ack+:0 sub:61.2 sub:62.2 close dial+:20 ack+:1 close dial+:30 ack+:1")
+	// a long outage: 70 consecutive failed dials (the back-off must stay clamped, never wrap)
+	emit("t0a0c0 P - pub:1:1 start" + strings.Repeat(" dial-", 70) + " dial+:10 ack+:0")
+	// bursts: several requests submitted while one is in flight (its acknowledgement is slow / lost with the connection)
+	emit("t1a0c1b1 P si,ok,ok start dial+:10 ack+:0 pub:1:1 pub:2:1 pub:3:2 sub:61.1 pub:4:1" + tail)
+	emit("t0a0c1b1 P la,ok,lr start dial+:10 ack+:0 pub:1:1 pub:2:1 pub:3:1 pub:4:2 unsub:61 pub:5:1" + tail)
+	emit("t0a0c1b1 P ok,wf pub:1:1 pub:2:2 pub:3:1 start dial+:10 ack+:0 pub:4:1 pub:5:1 pub:6:1" + tail)
 	// the write of CONNECT itself fails on a freshly dialled transport (first connection and a redial)
 	emit("t0a0c0 P - pub:1:1 start dialw:10 dial+:20 ack+:0 pub:2:1 close dialw:30 dialw:40 dial+:50 ack+:1")
 	emit("t0a0c0 P - start dialw:10 disc")
+	// a dialer that ignores its context (NoContextDialer): the dial in flight goes on after the cancellation
+	emit("t0a0c0d1 P - pub:1:1 start cancel dial+:10 ack+:0 dial+:20")
+	emit("t0a0c0d1 P - pub:1:1 start cancel dial- dial+:10")
+	emit("t0a0c0d1 P - start dial- cancel dial+:10 ack+:0")
+	emit("t0a0c0d1 P - cancel pub:1:2 start dial+:10 ack+:1")
+	emit("t0a0c0d1 P - start dial+:10 ack+:0 cancel pub:1:1 close dial+:20 ack+:1")
 	// long back-off (w1): events land while the loop waits to redial; `wait` = the timer fires
 	emit("t0a0c0w1 P - start dial+:10 ack+:0 pub:1:1 close pub:2:1 disc")            // Disconnect while waiting to redial: no further dial
 	emit("t0a0c0w1 P - start dial- disc")                                            // … before any connection was established
@@ -326,6 +341,15 @@ func genRetryScript(rng *rand.Rand) string {
 	}
 	script := strings.Join(evs, " ")
 	cfg = fmt.Sprintf("t%da%dc%d", b2i(respT && strings.Contains(fs, "si")), b2i(always), b2i(strings.Contains(script, "ack0")))
+	if rng.Intn(3) == 0 {
+		cfg += "b1" // requests submitted in bursts
+	}
+	if rng.Intn(4) == 0 {
+		cfg += "g1" // the broker grants at most QoS 1
+	}
+	if strings.Contains(script, "cancel") && rng.Intn(2) == 0 {
+		cfg += "d1" // the dialer ignores its context
+	}
 	return fmt.Sprintf("%s %s %s %s", cfg, method, fs, script)
 }
 
